@@ -536,6 +536,38 @@ func c13(x *mon.Ctx) {
 		}
 		x.Note("signed-certificate", c.Class+"/"+c.Param, ok, false, p == "")
 	})
+	// ---- many distinct certificates in one process, then the first ones again: what the function returns for a certificate is
+	//      a function of that certificate, however many others were decoded in between (a decode cache that answers an evicted
+	//      certificate with a later one's values shows only at the scale of a verification service: 2^14, 2^15, 2^16 entries)
+	{
+		nfill := x.Pick(40000, 140000)
+		mkc := func(i int) (*xcase, *world.Cert) {
+			r := x.Rand(fmt.Sprint("scale", i))
+			pl := randPlat(r)
+			c := &xcase{Class: "many-certificates-then-the-first-again", Param: fmt.Sprint(i), Value: world.SgxExtension(pl), Expect: "exact", P: pl}
+			return c, world.Issue(world.LeafTemplate(world.Far, c.Value), pki.Inter, pki.Leaf.Key)
+		}
+		const nearly = 96
+		earlyC := make([]*xcase, nearly)
+		earlyL := make([]*world.Cert, nearly)
+		run := func(phase string, i int, c *xcase, leaf *world.Cert) {
+			p, ok := extProblem(c, leaf.Cert)
+			if p != "" {
+				x.Violation(c.Class, phase+"/"+c.Param, p+" ("+phase+")", "sgxext", c)
+			}
+			x.Note(c.Class, phase+"/"+c.Param, ok, false, p == "")
+		}
+		x.Each(nearly, func(i int) {
+			earlyC[i], earlyL[i] = mkc(i)
+			run("first-visit", i, earlyC[i], earlyL[i])
+		})
+		x.Each(nfill, func(i int) {
+			c, leaf := mkc(nearly + i)
+			run("in-between", i, c, leaf)
+		})
+		x.Each(nearly, func(i int) { run(fmt.Sprintf("again-after-%d-others", nfill), i, earlyC[i], earlyL[i]) })
+		x.Require("many-certificates-then-the-first-again", nfill, 0, nfill)
+	}
 	x.Require("component-value", 4096, 0, 4096)
 	x.Require("top-level-order", 120, 0, 120)
 	x.Require("octet-content-reads-as-der", 36, 0, 36)
